@@ -1,5 +1,6 @@
 import TxVerif.Props.C07
 import TxVerif.Tie.Skeleton
+import TxVerif.Props.C04C07Engine
 open TxVerif
 #print axioms abort_is_identity
 #print axioms next_tx_identical
@@ -9,3 +10,10 @@ open TxVerif
 #print axioms rollback_of_inv
 #print axioms Tie.commitChanges_rollback
 #print axioms Tie.finishWith_closes
+#print axioms c07_abort_identity_engine
+#print axioms c07_failed_commit_identity_engine
+#print axioms c07_next_tx_identical
+#print axioms c07_next_tx_identical_failed
+#print axioms c07_next_tx_reads
+#print axioms c07_next_tx_allocs
+#print axioms c07_next_tx_commit
